@@ -22,7 +22,7 @@ Proof. intros H s s' E. apply H. now apply pcore_of_pview. Qed.
   Proof.
     induction rem as [|r IH]; intros s H; simpl.
     - destruct (get_m s m); auto. eapply Hpv; [apply pv_finish_m|auto].
-    - destruct (get_m s m) as [x|]; auto. destruct (m_bad x).
+    - destruct (get_m s m) as [x|]; auto. destruct (nth (m_idx x) (m_bad x) false).
       + apply IH. eapply Hpv; [apply pv_put_m|auto].
       + pose proof (Q_try_start Q Hpv Hreg s m x H) as H1.
         destruct (try_start s m x) as [s' cont]. cbn [fst] in H1. destruct cont; auto.
